@@ -15,18 +15,18 @@ import (
 )
 
 type PropSpec struct {
-	ID          string            `json:"id"`
-	Functions   []string          `json:"functions"`
-	Lemmas      []string          `json:"lemmas"`
-	Required    []string          `json:"required_obligations"` // names that must be generated (vacuity guard)
-	NotDecided  []string          `json:"not_decided"`
-	Assumptions []string          `json:"assumptions"`
-	Bounded     []BoundedSpec     `json:"bounded"`
-	Scenarios   map[string]string `json:"scenarios"` // obligation regexp -> scenario test file under /verif/replay
-	QuickSecs   int               `json:"quick_timeout_s"`
-	ThoroughSecs int              `json:"thorough_timeout_s"`
-	MinObligations int            `json:"min_obligations"`
-	Exclude     []string          `json:"exclude_obligations"` // decided under another property
+	ID             string            `json:"id"`
+	Functions      []string          `json:"functions"`
+	Lemmas         []string          `json:"lemmas"`
+	Required       []string          `json:"required_obligations"` // names that must be generated (vacuity guard)
+	NotDecided     []string          `json:"not_decided"`
+	Assumptions    []string          `json:"assumptions"`
+	Bounded        []BoundedSpec     `json:"bounded"`
+	Scenarios      map[string]string `json:"scenarios"` // obligation regexp -> scenario test file under /verif/replay
+	QuickSecs      int               `json:"quick_timeout_s"`
+	ThoroughSecs   int               `json:"thorough_timeout_s"`
+	MinObligations int               `json:"min_obligations"`
+	Exclude        []string          `json:"exclude_obligations"` // decided under another property
 }
 
 type BoundedSpec struct {
@@ -35,7 +35,7 @@ type BoundedSpec struct {
 	Alpha    string `json:"alphabet"`
 	Quick    int    `json:"quick_len"`
 	Thorough int    `json:"thorough_len"`
-	Pkg      string `json:"pkg"`      // package dir relative to /repo
+	Pkg      string `json:"pkg"` // package dir relative to /repo
 	PkgName  string `json:"pkg_name"`
 	TestFile string `json:"test_file"` // hand-written bounded harness under /verif/replay (optional)
 	Bound    string `json:"bound"`
@@ -414,11 +414,11 @@ func checkMain(args []string) {
 		"property_id": id, "tier": tier, "seed": seed, "level": "proof",
 		"coverage": map[string]interface{}{
 			"obligations": nOb, "discharged": nDis,
-			"checker_cmd":  fmt.Sprintf("/verif/check %s --tier %s", id, tier),
-			"trusted_base": tb,
+			"checker_cmd":              fmt.Sprintf("/verif/check %s --tier %s", id, tier),
+			"trusted_base":             tb,
 			"functions_under_contract": fnsEv,
-			"by_backend": bbEv, "slowest": slowest, "samples": samples,
-			"canaries": map[string]int{"planted": nCanary, "shown_reachable": nCanaryReach},
+			"by_backend":               bbEv, "slowest": slowest, "samples": samples,
+			"canaries":  map[string]int{"planted": nCanary, "shown_reachable": nCanaryReach},
 			"undecided": undecidedFns, "bounded": bounded, "undecided_fallback_rac": fallback,
 			"known_findings_hit": knownHit, "open_findings_not_counted_as_obligations": len(knownHit), "not_decided": ps.NotDecided, "decided_under_another_property": decidedElsewhere,
 			"load_secs": tLoad, "solver_timeout_s": secs,
